@@ -333,6 +333,25 @@ func targets(w *bx.World) []target {
 		_, err := w.BIssuer.EvaluateBatch(r)
 		return err == nil
 	}, Seeds: []bx.Seed{{Name: "batchrequest", Msg: w.BatchReq, Fields: []bx.Field{{0, bw}, {bw, 2}, {bw + 52, 2}}}}})
+	// the same batches at batch issuers that serve one token type only (the other type's requests
+	// take the "token type not supported" path)
+	only1 := batched.NewBasicBatchedIssuer(bx.Issuer1{I: w.W1.Issuer})
+	only2 := batched.NewBasicBatchedIssuer(bx.Issuer2{I: w.W2.Issuer})
+	none := batched.NewBasicBatchedIssuer()
+	for _, bi := range []struct {
+		name string
+		i    *batched.BasicBatchedIssuer
+	}{{"type-1 issuer only", only1}, {"type-2 issuer only", only2}, {"no issuer", none}} {
+		bi := bi
+		add(target{Name: "batched.Request.Unmarshal+EvaluateBatch (" + bi.name + ")", Step: true, Run: func(in []byte) bool {
+			r := new(batched.BatchedTokenRequest)
+			if !r.Unmarshal(in) {
+				return false
+			}
+			_, err := bi.i.EvaluateBatch(r)
+			return err == nil
+		}, Seeds: []bx.Seed{{Name: "batchrequest", Msg: w.BatchReq, Fields: []bx.Field{{0, bw}, {bw, 2}, {bw + 52, 2}}, Plain: false}}})
+	}
 	rw := bx.VarintWidth(w.BatchResp)
 	add(target{Name: "batched.UnmarshalBatchedTokenResponses", Run: func(in []byte) bool {
 		_, err := batched.UnmarshalBatchedTokenResponses(in)
